@@ -79,7 +79,13 @@ End mol_fold.
 
 Section import.
   Context (fl : bflags) (ifl : iflags) (H : net) (G : bgraph) (Ms Rs : gmap string nid).
-  Context (HS : bip_spec fl H G Ms Rs) (Hwf : wf_rxns H) (Heid : f_eid fl = true) (Hsto : f_stoich fl = true).
+  Context (HS : bip_spec fl H G Ms Rs) (Hwf : wf_rxns H) (Heid : f_eid fl = true).
+  (** what an arc carries for a coefficient: the coefficient itself, or nothing (read as 1) without `stoich` *)
+  Definition cv (c : positive) : positive := if f_stoich fl then c else 1%positive.
+  Definition cvs (sd : side) : side := cv <$> sd.
+  Definition cvr (rx : rxn) : rxn := Rxn (r_rule rx) (cvs (r_lhs rx)) (cvs (r_rhs rx)).
+  Lemma dom_cvs (sd : side) : dom (cvs sd) = dom sd.
+  Proof. apply dom_fmap_L. Qed.
 
   Lemma node_of_species s n : Ms !! s = Some n → b_nodes G !! n = Some (sp_attrs fl H s).
   Proof. intros Hs. apply (bs_nodes _ _ _ _ _ HS). left. eauto. Qed.
@@ -130,7 +136,7 @@ Section import.
   Proof. intros He Hc. apply elem_of_occurring. exists e, rx. split; [done|]. apply elem_of_union_r. by apply elem_of_dom_2 in Hc. Qed.
 
   Lemma side_map_in e rx rnd : edges H !! e = Some rx → Rs !! e = Some rnd →
-    side_map G spN rnd true = Z.pos <$> r_lhs rx.
+    side_map G spN rnd true = Z.pos <$> cvs (r_lhs rx).
   Proof.
     intros He Hr. unfold side_map. apply sum_map_of_map.
     - unfold side_contribs. apply NoDup_omap; [apply NoDup_map_to_list|].
@@ -141,23 +147,23 @@ Section import.
       apply HspN in Hu as [s Hs]. apply HspN in Hu' as [s' Hs'].
       rewrite (label_of_species s u Hs), (label_of_species s' u' Hs') in Hlbl. subst s'.
       assert (u' = u) as -> by congruence. assert (a' = a) as -> by congruence. done.
-    - intros s z. unfold side_contribs. rewrite elem_of_list_omap, lookup_fmap. split.
+    - intros s z. unfold side_contribs, cvs. rewrite elem_of_list_omap, !lookup_fmap. split.
       + intros ([[u v] a] & Hin%elem_of_map_to_list & Hg). cbn in Hg. destruct (decide _) as [[-> Hu]|]; [|done].
         injection Hg as <- <-.
         apply (bs_arcs _ _ _ _ _ HS) in Hin as [(e0 & rx0 & s0 & c & He0 & Hr0 & Hs0 & Hc & ->)|(e0 & rx0 & s0 & c & He0 & Hr0 & Hs0 & Hc & ->)].
         * assert (e0 = e) as -> by (eapply (bs_Rinj _ _ _ _ _ HS); eauto). assert (rx0 = rx) as -> by congruence.
-          rewrite (label_of_species s0 u Hs0). unfold side in *. rewrite Hc. cbn. unfold arc_attrs. by rewrite Hsto.
+          rewrite (label_of_species s0 u Hs0). unfold side in *. rewrite Hc. cbn. unfold arc_attrs, cv. by destruct (f_stoich fl).
         * exfalso. eapply (bs_disj _ _ _ _ _ HS); eauto.
       + destruct ((r_lhs rx : gmap string positive) !! s) as [c|] eqn:Hc; [|done]. cbn. intros [= <-].
         destruct (bs_Mocc _ _ _ _ _ HS s) as [u Hu]; [by eapply occurs_l|].
         exists ((u, rnd), arc_attrs fl c "reactant"). split.
         * apply elem_of_map_to_list. apply (bs_arcs _ _ _ _ _ HS). left. by exists e, rx, s, c.
         * cbn. rewrite decide_True by (split; [done|apply HspN; eauto]).
-          rewrite (label_of_species s u Hu). unfold arc_attrs. by rewrite Hsto.
+          rewrite (label_of_species s u Hu). unfold arc_attrs, cv. by destruct (f_stoich fl).
   Qed.
 
   Lemma side_map_out e rx rnd : edges H !! e = Some rx → Rs !! e = Some rnd →
-    side_map G spN rnd false = Z.pos <$> r_rhs rx.
+    side_map G spN rnd false = Z.pos <$> cvs (r_rhs rx).
   Proof.
     intros He Hr. unfold side_map. apply sum_map_of_map.
     - unfold side_contribs. apply NoDup_omap; [apply NoDup_map_to_list|].
@@ -168,19 +174,19 @@ Section import.
       apply HspN in Hv as [s Hs]. apply HspN in Hv' as [s' Hs'].
       rewrite (label_of_species s v Hs), (label_of_species s' v' Hs') in Hlbl. subst s'.
       assert (v' = v) as -> by congruence. assert (a' = a) as -> by congruence. done.
-    - intros s z. unfold side_contribs. rewrite elem_of_list_omap, lookup_fmap. split.
+    - intros s z. unfold side_contribs, cvs. rewrite elem_of_list_omap, !lookup_fmap. split.
       + intros ([[u v] a] & Hin%elem_of_map_to_list & Hg). cbn in Hg. destruct (decide _) as [[-> Hv]|]; [|done].
         injection Hg as <- <-.
         apply (bs_arcs _ _ _ _ _ HS) in Hin as [(e0 & rx0 & s0 & c & He0 & Hr0 & Hs0 & Hc & ->)|(e0 & rx0 & s0 & c & He0 & Hr0 & Hs0 & Hc & ->)].
         * exfalso. eapply (bs_disj _ _ _ _ _ HS); eauto.
         * assert (e0 = e) as -> by (eapply (bs_Rinj _ _ _ _ _ HS); eauto). assert (rx0 = rx) as -> by congruence.
-          rewrite (label_of_species s0 v Hs0). unfold side in *. rewrite Hc. cbn. unfold arc_attrs. by rewrite Hsto.
+          rewrite (label_of_species s0 v Hs0). unfold side in *. rewrite Hc. cbn. unfold arc_attrs, cv. by destruct (f_stoich fl).
       + destruct ((r_rhs rx : gmap string positive) !! s) as [c|] eqn:Hc; [|done]. cbn. intros [= <-].
         destruct (bs_Mocc _ _ _ _ _ HS s) as [v Hv]; [by eapply occurs_r|].
         exists ((rnd, v), arc_attrs fl c "product"). split.
         * apply elem_of_map_to_list. apply (bs_arcs _ _ _ _ _ HS). right. by exists e, rx, s, c.
         * cbn. rewrite decide_True by (split; [done|apply HspN; eauto]).
-          rewrite (label_of_species s v Hv). unfold arc_attrs. by rewrite Hsto.
+          rewrite (label_of_species s v Hv). unfold arc_attrs, cv. by destruct (f_stoich fl).
   Qed.
 
   (** ** the rebuild loop *)
@@ -191,8 +197,8 @@ Section import.
   Definition frule (n : nid) : string := default (i_default_rule ifl) (bn_label (nd_of n)).
 
   Lemma rxn_node_facts n e : Rs !! e = Some n →
-    ∃ rx, edges H !! e = Some rx ∧ bn_eid (nd_of n) = Some e ∧ fid n = e ∧ fl' n = r_lhs rx ∧ fr' n = r_rhs rx ∧
-          frule n = r_rule rx ∧ side_map G spN n true = Z.pos <$> r_lhs rx ∧ side_map G spN n false = Z.pos <$> r_rhs rx.
+    ∃ rx, edges H !! e = Some rx ∧ bn_eid (nd_of n) = Some e ∧ fid n = e ∧ fl' n = cvs (r_lhs rx) ∧ fr' n = cvs (r_rhs rx) ∧
+          frule n = r_rule rx ∧ side_map G spN n true = Z.pos <$> cvs (r_lhs rx) ∧ side_map G spN n false = Z.pos <$> cvs (r_rhs rx).
   Proof.
     intros Hr. destruct (proj1 (bs_Rdom _ _ _ _ _ HS e)) as [rx Hrx]; [eauto|]. exists rx.
     unfold fid, fl', fr', frule, nd_of. rewrite (node_of_rxn e rx n Hrx Hr). cbn. rewrite Heid. cbn.
@@ -208,12 +214,12 @@ Section import.
     unfold import_rxn, rebuild_step. destruct acc as [s [er|]]; [done|]. cbv zeta.
     fold (nd_of n). rewrite decide_False.
     - rewrite Hid. fold (fl' n) (fr' n) (frule n). by rewrite Hfid.
-    - rewrite Hin, Hout. intros [Ha%fmap_empty_inv Hb%fmap_empty_inv]. by eapply rxn_nonempty.
+    - rewrite Hin, Hout. intros [Ha%fmap_empty_inv%fmap_empty_inv Hb%fmap_empty_inv%fmap_empty_inv]. by eapply rxn_nonempty.
   Qed.
 
   Lemma import_result : ∃ s',
     foldl (import_rxn ifl G spN) (empty_net, None) (merge_sort nid_le (elements rxN)) = (s', None) ∧
-    edges s' = edges H ∧ species s' = occurring H ∧ mol s' = ∅.
+    edges s' = cvr <$> edges H ∧ species s' = occurring H ∧ mol s' = ∅.
   Proof.
     set (l := merge_sort nid_le (elements rxN)).
     assert (l ≡ₚ elements rxN) as Hperm by apply merge_sort_Permutation.
@@ -227,28 +233,29 @@ Section import.
       destruct (rxn_node_facts x ex Hx) as (_ & _ & _ & Hfx & _). destruct (rxn_node_facts y ey Hy) as (_ & _ & _ & Hfy & _).
       congruence. }
     { apply Forall_forall. intros n [e He]%Hl. destruct (rxn_node_facts n e He) as (rx & Hrx & _ & _ & -> & -> & _).
-      by eapply rxn_nonempty. }
+      intros [Ha%fmap_empty_inv Hb%fmap_empty_inv]. by eapply rxn_nonempty. }
     { done. }
     exists s'. split; [done|]. split_and!.
-    - rewrite He. cbn [edges empty_net]. rewrite (right_id_L ∅ (∪)). apply map_eq. intros e.
-      destruct (edges H !! e) as [rx|] eqn:Hrx.
+    - rewrite He. cbn [edges empty_net]. rewrite (right_id_L ∅ (∪)). apply map_eq. intros e. rewrite lookup_fmap.
+      destruct (edges H !! e) as [rx|] eqn:Hrx; cbn [fmap option_fmap option_map].
       + destruct (proj2 (bs_Rdom _ _ _ _ _ HS e)) as [n Hn]; [eauto|].
         destruct (rxn_node_facts n e Hn) as (rx' & Hrx' & _ & Hfid & Hl' & Hr' & Hrule & _).
         assert (rx' = rx) as -> by congruence.
-        apply (elem_of_list_to_map_1 _ e rx); [by rewrite rebuilt_fst; apply NoDup_fmap_2_strong;
+        apply (elem_of_list_to_map_1 _ e (cvr rx)); [by rewrite rebuilt_fst; apply NoDup_fmap_2_strong;
           [intros x y [ex Hx]%Hl [ey Hy]%Hl Hxy; destruct (rxn_node_facts x ex Hx) as (_ & _ & _ & Hfx & _);
            destruct (rxn_node_facts y ey Hy) as (_ & _ & _ & Hfy & _); congruence|]|].
         apply elem_of_list_fmap. exists n. split; [|apply Hl; eauto]. unfold rebuilt.
-        rewrite Hfid, Hl', Hr', Hrule, norm_rule_id by (by destruct (Hwf e rx Hrx)). by rewrite rxn_eta.
+        rewrite Hfid, Hl', Hr', Hrule, norm_rule_id by (by destruct (Hwf e rx Hrx)). done.
       + apply not_elem_of_list_to_map_1. rewrite rebuilt_fst. intros (n & -> & [e' He']%Hl)%elem_of_list_fmap.
         destruct (rxn_node_facts n e' He') as (rx & Hrx' & _ & Hfid & _). congruence.
     - rewrite Hs. cbn [species empty_net]. rewrite (left_id_L ∅ (∪)). apply set_eq. intros x.
       rewrite elem_of_union_list, elem_of_occurring. split.
       + intros (X & (n & -> & [e He']%Hl)%elem_of_list_fmap & Hx).
-        destruct (rxn_node_facts n e He') as (rx & Hrx & _ & _ & Hl' & Hr' & _). rewrite Hl', Hr' in Hx. by exists e, rx.
+        destruct (rxn_node_facts n e He') as (rx & Hrx & _ & _ & Hl' & Hr' & _). rewrite Hl', Hr' in Hx.
+        rewrite !dom_cvs in Hx. by exists e, rx.
       + intros (e & rx & Hrx & Hx). destruct (proj2 (bs_Rdom _ _ _ _ _ HS e)) as [n Hn]; [eauto|].
         destruct (rxn_node_facts n e Hn) as (rx' & Hrx' & _ & _ & Hl' & Hr' & _). assert (rx' = rx) as -> by congruence.
-        exists (dom (fl' n) ∪ dom (fr' n)). split; [|by rewrite Hl', Hr'].
+        exists (dom (fl' n) ∪ dom (fr' n)). split; [|by rewrite Hl', Hr', !dom_cvs].
         apply elem_of_list_fmap. exists n. split; [done|]. apply Hl. eauto.
     - by rewrite Hm.
   Qed.
@@ -287,6 +294,33 @@ Section import.
 End import.
 
 (** * the round trip *)
+(** every flag combination that exports the ids: with `stoich` the reactions come back, without it their supports (every
+    coefficient 1) *)
+Lemma bipartite_roundtrip_gen (fl : bflags) (ifl : iflags) (H : net) :
+  wf16 H → f_eid fl = true → bip_names_ok fl H →
+  (bipartite_to_hypergraph ifl (hypergraph_to_bipartite fl H)).2 = None ∧
+  edges (bipartite_to_hypergraph ifl (hypergraph_to_bipartite fl H)).1 = cvr fl <$> edges H ∧
+  species (bipartite_to_hypergraph ifl (hypergraph_to_bipartite fl H)).1 = occurring H ∧
+  mol (bipartite_to_hypergraph ifl (hypergraph_to_bipartite fl H)).1
+    = if f_mol fl && i_mol ifl then filter (λ p, p.1 ∈ occurring H) (mol H) else ∅.
+Proof.
+  intros (Hwf & Hwsp & _ & _) Heid Hnames.
+  destruct (export_spec fl H Hwsp Hnames) as (Ms & Rs & HS).
+  set (G := hypergraph_to_bipartite fl H) in *.
+  destruct (classify_spec fl ifl H G Ms Rs HS Hwf Heid) as (spN & rxN & Hcl & HspN & HrxN).
+  unfold bipartite_to_hypergraph. rewrite Hcl.
+  destruct (import_result fl ifl H G Ms Rs HS Hwf Heid spN rxN HspN HrxN) as (s' & -> & He & Hs & Hm).
+  cbn [fst snd]. destruct (i_mol ifl).
+  - destruct (import_mols_spec fl H G Ms Rs HS spN HspN s' Hm Hs) as (He' & Hs' & Hm').
+    rewrite He', Hs', Hm', andb_true_r. done.
+  - rewrite andb_false_r. done.
+Qed.
+
+Lemma cvr_id fl rx : f_stoich fl = true → cvr fl rx = rx.
+Proof.
+  intros Hs. unfold cvr, cvs, cv. rewrite Hs. destruct rx as [r l p]. cbn. f_equal; apply map_fmap_id.
+Qed.
+
 Lemma bipartite_roundtrip (fl : bflags) (ifl : iflags) (H : net) :
   wf16 H → f_eid fl = true → f_stoich fl = true → bip_names_ok fl H →
   (bipartite_to_hypergraph ifl (hypergraph_to_bipartite fl H)).2 = None ∧
@@ -295,16 +329,9 @@ Lemma bipartite_roundtrip (fl : bflags) (ifl : iflags) (H : net) :
   mol (bipartite_to_hypergraph ifl (hypergraph_to_bipartite fl H)).1
     = if f_mol fl && i_mol ifl then filter (λ p, p.1 ∈ occurring H) (mol H) else ∅.
 Proof.
-  intros (Hwf & Hwsp & _ & _) Heid Hsto Hnames.
-  destruct (export_spec fl H Hwsp Hnames) as (Ms & Rs & HS).
-  set (G := hypergraph_to_bipartite fl H) in *.
-  destruct (classify_spec fl ifl H G Ms Rs HS Hwf Heid Hsto) as (spN & rxN & Hcl & HspN & HrxN).
-  unfold bipartite_to_hypergraph. rewrite Hcl.
-  destruct (import_result fl ifl H G Ms Rs HS Hwf Heid Hsto spN rxN HspN HrxN) as (s' & -> & He & Hs & Hm).
-  cbn [fst snd]. destruct (i_mol ifl).
-  - destruct (import_mols_spec fl H G Ms Rs HS spN HspN s' Hm Hs) as (He' & Hs' & Hm').
-    rewrite He', Hs', Hm', andb_true_r. done.
-  - rewrite andb_false_r. done.
+  intros Hwf Heid Hsto Hnames. destruct (bipartite_roundtrip_gen fl ifl H Hwf Heid Hnames) as (H1 & H2 & H3 & H4).
+  split; [done|]. split; [|done]. rewrite H2. rewrite (map_fmap_ext _ id); [apply map_fmap_id|].
+  intros e rx _. by apply cvr_id.
 Qed.
 
 (** * non-vacuity *)
@@ -321,6 +348,16 @@ Example ex_bip_premises :
   size (edges ex_bip_net) = 4%nat ∧ size (b_nodes ex_bip_graph) = 7%nat ∧ size (b_arcs ex_bip_graph) = 8%nat ∧
   bool_decide (occurring ex_bip_net = {[ "A"; "B"; "C" ]}) = true.
 Proof. split_and!; by vm_compute. Qed.
+(** without `stoich` the supports come back: 2A >> B + A (id r_1) returns as A >> A + B, 12 C as C *)
+Definition ex_fl_nosto : bflags := BFlags (Some "S:") (Some "R:") 0 1 false true true false true true.
+Definition ex_bip_nosto_back : net := (bipartite_to_hypergraph (default_iflags true) (hypergraph_to_bipartite ex_fl_nosto ex_bip_net)).1.
+Example ex_bip_nostoich :
+  bool_decide (edges ex_bip_nosto_back = cvr ex_fl_nosto <$> edges ex_bip_net) = true ∧
+  bool_decide (edges ex_bip_nosto_back = edges ex_bip_net) = false ∧
+  (r_lhs <$> edges ex_bip_nosto_back !! "r_1") = Some {[ "A" := 1%positive ]} ∧
+  (r_lhs <$> edges ex_bip_net !! "r_1") = Some {[ "A" := 2%positive ]}.
+Proof. split_and!; by vm_compute. Qed.
+
 (** the name-clash premise is needed for un-prefixed string ids: species "r_1" and reaction id "r_1" share a node *)
 Definition ex_bip_clash : net := mk_net [] [(None, "r", [("A", 1%Z)], [("r_1", 1%Z)])] [].
 Definition ex_bip_clash_back : net := (bipartite_to_hypergraph (default_iflags true) (hypergraph_to_bipartite ex_fl_bare ex_bip_clash)).1.
